@@ -24,6 +24,10 @@ const (
 	downcaseKey   = Symbol(":downcase")
 	capitalizeKey = Symbol(":capitalize")
 
+	// noMiserWidth is the Printer.MiserWidth for a *print-miser-width* of
+	// nil. It is not a value a fixnum can have.
+	noMiserWidth = ^uint(0)
+
 	//   0123456789abcdef0123456789abcdef
 	needPipeMap = "" +
 		"xxxxxxxxxxxxxxxxxxxxxxxxxxxxxxxx" + // 0x00
@@ -83,7 +87,7 @@ type Printer struct {
 	// Lines backs *print-lines*.
 	Lines uint
 
-	// MiserWidth *print-miser-width*.
+	// MiserWidth *print-miser-width*. The maximum uint stands for nil.
 	MiserWidth uint
 
 	// Pretty backs *print-pretty*.
@@ -329,7 +333,9 @@ func (p *Printer) ScopedUpdate(s *Scope) {
 			"*print-level*":  func(v Object) { p.Level = uintVarValue(v, "*print-level*") },
 			"*print-lines*":  func(v Object) { p.Lines = uintVarValue(v, "*print-lines*") },
 			"*print-miser-width*": func(v Object) {
-				if miserWidth, ok := v.(Fixnum); ok && 0 <= miserWidth {
+				if v == nil {
+					p.MiserWidth = noMiserWidth
+				} else if miserWidth, ok := v.(Fixnum); ok && 0 <= miserWidth {
 					p.MiserWidth = uint(miserWidth)
 				} else {
 					TypePanic(s, 0, "*print-miser-width*", v, "non-negative fixnum")
@@ -656,12 +662,17 @@ func setPrintLines(value Object) {
 
 // get *print-miser-width*
 func getPrintMiserWidth() Object {
+	if printer.MiserWidth == noMiserWidth {
+		return nil
+	}
 	return Fixnum(printer.MiserWidth)
 }
 
 // set *print-miser-width*
 func setPrintMiserWidth(value Object) {
-	if miserWidth, ok := value.(Fixnum); ok && 0 <= miserWidth {
+	if value == nil {
+		printer.MiserWidth = noMiserWidth
+	} else if miserWidth, ok := value.(Fixnum); ok && 0 <= miserWidth {
 		printer.MiserWidth = uint(miserWidth)
 	} else {
 		TypePanic(NewScope(), 0, "*print-miser-width*", value, "non-negative fixnum")
